@@ -435,7 +435,11 @@ func runC08(c *Ctx) {
 		if err != nil {
 			continue
 		}
-		if p, _ := Safely(func() { err = env.Calculate() }); p != nil || err != nil {
+		if p, _ := Safely(func() {
+			if err = env.Calculate(); err == nil {
+				err = env.Validate() // (without its payment details or with 300 lines an example may no longer be valid: take the next)
+			}
+		}); p != nil || err != nil {
 			continue
 		}
 		b, _ := json.Marshal(env)
